@@ -56,6 +56,23 @@ def _dot(row, z, n):
     return s
 
 
+def _laid_out(a, case, ctx, salt=0):
+    """the same logical matrix in C order, Fortran order, or as a strided view"""
+    k = (case['seed'] // 3 + salt) % 4
+    if k == 1:
+        ctx.count('matrix_x_memory_layout:F')
+        return np.asfortranarray(a)
+    if k == 2:
+        ctx.count('matrix_x_memory_layout:transposed_view')
+        return np.ascontiguousarray(a.T).T
+    if k == 3:
+        ctx.count('matrix_x_memory_layout:strided')
+        big = np.zeros((a.shape[0], 2 * a.shape[1]))
+        big[:, ::2] = a
+        return big[:, ::2]
+    return a
+
+
 def _as_given(x, case, ctx, salt=0):
     """the same point as ndarray (mostly), list, tuple, or - for a single variable - a plain float"""
     k = (case['seed'] // 7 + salt) % 10
@@ -69,6 +86,8 @@ def _as_given(x, case, ctx, salt=0):
     if k == 2 and np.size(x) == 1 and np.ndim(x) == 1:
         ctx.count('x_given_as:scalar')
         return float(np.asarray(x)[0])
+    if isinstance(x, np.ndarray) and x.ndim >= 2 and not x.flags['C_CONTIGUOUS']:
+        return x                      # (keep the memory layout under test)
     return np.array(x, copy=True)
 
 
@@ -225,7 +244,7 @@ def run_case(case, ctx):
         if kind == 'gradient':
             xin = x.copy()
             if case['xmat'] and n % 2 == 0 and n > 2:
-                xin = x.reshape(2, n // 2)
+                xin = _laid_out(x.reshape(2, n // 2), case, ctx)
             try:
                 with np.errstate(all='ignore'):
                     g, ginfo = nd.Gradient(f, **kw)(_as_given(xin, case, ctx))
@@ -267,7 +286,7 @@ def run_case(case, ctx):
                 v[0] = 1.0
             xin, vin = x.copy(), v.copy()
             if case['xmat'] and n % 2 == 0 and n > 2:
-                xin, vin = x.reshape(2, n // 2), v.reshape(2, n // 2)
+                xin, vin = _laid_out(x.reshape(2, n // 2), case, ctx), _laid_out(v.reshape(2, n // 2), case, ctx, salt=1)
 
             def fm(z):
                 return f(np.ravel(z))
